@@ -2,4 +2,10 @@
 EXTENDS NodeOps, Json, CSV, IOUtils
 Export == CSVWrite("%1$s", <<ToJson(hist')>>, IOEnv.VERIF_OUT)
 ExportLeaves == (steps' = MaxSteps) => Export
+\* Schema-only histories, enumerated exhaustively: one document, then nothing but patches and switches of the active
+\* version (every shape of the version tree up to MaxVer versions and every walk of the active version over it)
+SchemaNext == /\ steps < MaxSteps
+              /\ IF steps = 0 THEN Create(1, 0)
+                 ELSE (\E b \in BOOLEAN : Patch(b)) \/ (\E k \in 1..MaxVer : SetActive(k))
+SchemaSpec == Init /\ [][SchemaNext]_vars
 =============================================================================
